@@ -98,6 +98,7 @@ let parse_op (ws : string list) : op =
   | ["loopiter"] -> OLoopIter
   | ["loopiterend"] -> OLoopIterEnd
   | ["loopexit"] -> OLoopExit
+  | "reverse" :: x :: path -> OReverse (nat_tok x, List.map nat_tok path)
   | _ -> failwith ("mem: bad op line: " ^ String.concat " " ws)
 
 let verdict_str (v : verdict) : string =
